@@ -244,8 +244,8 @@ func (vc *VC) atCall(f *Frame, callee string, args []SV, pc string, st *State, p
 		}
 		t, err := env.eval(ac.Clause.Expr)
 		name := vc.oblName("at-call", fmt.Sprintf("%s#%d/%d%s", callee, n, i, labelSuffix(ac.Clause.Labels)))
-		if err != nil && strings.Contains(ac.Clause.Text, "phi:") && !f.inLoopBody() {
-			continue // the assertion mentions loop variables: it applies to calls inside that loop only
+		if err != nil && strings.Contains(err.Error(), "not in scope here") {
+			continue // the assertion mentions variables that do not exist (yet) at this call: it does not apply here
 		}
 		if err != nil {
 			vc.failObl(name, ac.Clause, err)
